@@ -112,7 +112,8 @@ func c06Round(rep *vk.Report, idx int) {
 		Comp: vk.Pick(r, "bh", "bh", "retry(bh)", "timeout(bh)", "bh(timeout)", "hedge(bh)", "fallback(bh)", "bh(bh2)"), Iters: 6 + r.IntN(10)}
 	cs.Workers = cs.Cap + 2 + r.IntN(40)
 	var onFull atomic.Int64
-	bh := bulkhead.Builder[int](uint(cs.Cap)).WithMaxWaitTime(time.Duration(cs.MaxWait)).OnFull(func(failsafe.ExecutionEvent[int]) { onFull.Add(1) }).Build()
+	bhBuilder := bulkhead.Builder[int](uint(cs.Cap)).WithMaxWaitTime(time.Duration(cs.MaxWait)).OnFull(func(failsafe.ExecutionEvent[int]) { onFull.Add(1) })
+	bh := bhBuilder.Build()
 	var pols []failsafe.Policy[int]
 	switch cs.Comp {
 	case "bh":
@@ -294,6 +295,13 @@ func c06Round(rep *vk.Report, idx int) {
 		go func(w int) {
 			defer wg.Done()
 			for i := 0; i < cs.Iters; i++ {
+				if w == 1 && i == cs.Iters/2 {
+					// the builder is used again while executions are in flight on the bulkhead it built earlier: a second,
+					// independent bulkhead, which must leave the first one alone
+					if other := bhBuilder.Build(); other.TryAcquirePermit() {
+						other.ReleasePermit()
+					}
+				}
 				if wr.IntN(4) == 0 {
 					standalone(wr)
 				} else {
